@@ -136,17 +136,9 @@ impl Cfg {
     }
 }
 
-/// `$XDG_DATA_HOME` is process-global: it is only written when the requested home differs from the
-/// current one.  Multi-threaded drivers give every worker the same home (or run single-threaded).
-pub fn set_user_home(user_home: &Path) {
-    use std::sync::Mutex;
-    static CUR: Mutex<Option<PathBuf>> = Mutex::new(None);
-    let mut cur = CUR.lock().unwrap();
-    if cur.as_deref() != Some(user_home) {
-        std::env::set_var("XDG_DATA_HOME", user_home);
-        *cur = Some(user_home.to_path_buf());
-    }
-}
+/// `$XDG_DATA_HOME` is process-global and read by `riti_config_new()` (Config::default).  The lock is
+/// held across "set the variable + create the Config", so worker threads can use different homes.
+static HOME_LOCK: std::sync::Mutex<()> = std::sync::Mutex::new(());
 
 /// An owned riti `Config` created through the C symbols.  `user_home` becomes `$XDG_DATA_HOME` (the
 /// user files live in `<user_home>/openbangla-keyboard/`) *at creation time of the Config*.
@@ -156,9 +148,12 @@ pub struct RealConfig {
 
 impl RealConfig {
     pub fn new(cfg: &Cfg, user_home: &Path) -> RealConfig {
-        set_user_home(user_home);
         unsafe {
-            let ptr = riti_config_new();
+            let ptr = {
+                let _g = HOME_LOCK.lock().unwrap();
+                std::env::set_var("XDG_DATA_HOME", user_home);
+                riti_config_new()
+            };
             let lp = CString::new(cfg.layout_path()).unwrap();
             assert!(riti_config_set_layout_file(ptr, lp.as_ptr()), "layout path rejected: {:?}", lp);
             if cfg.db {
@@ -383,6 +378,13 @@ impl Drop for Ctx {
     }
 }
 
+/// Remove the per-user files (a clean, but existing, user-data directory).
+pub fn clean_home(home: &Path) {
+    let d = home.join("openbangla-keyboard");
+    let _ = std::fs::remove_file(d.join("phonetic-candidate-selection.json"));
+    let _ = std::fs::remove_file(d.join("autocorrect.json"));
+}
+
 /// Fresh scratch user-data home under <verif>/work/tmp (never /tmp).
 pub fn scratch_home(tag: &str) -> PathBuf {
     use std::sync::atomic::{AtomicU64, Ordering};
@@ -396,6 +398,7 @@ pub fn scratch_home(tag: &str) -> PathBuf {
         std::process::id(),
         N.fetch_add(1, Ordering::Relaxed)
     ));
-    std::fs::create_dir_all(&p).unwrap();
+    // a normal environment: the user-data directory exists (its absence is C10's subject)
+    std::fs::create_dir_all(p.join("openbangla-keyboard")).unwrap();
     p
 }
